@@ -1,2 +1,146 @@
+import PelModel.HwDiags
+import PelModel.JsonSpec
+import PelProofs.HwDiags
+/-
+  C20 — Hardware-diagnostics signatures and register dumps are decoded field-exactly.
+-/
 namespace Pel.C20
+
+/-- ★ a signature given as three 8-digit UPPER-case hex words (as the SRC parser receives hex words 6..8):
+    chip position, node, attention type, signature id, instance and bit are taken from exactly the stated byte
+    positions; the look-ups are made with those numbers -/
+theorem signature_fields_upper (cd : List ChipData) (a b c : Nat) (ha : a < 2^32) (hb : b < 2^32) (hc : c < 2^32) :
+    getSignature cd (hexFix 8 a) (hexFix 8 b) (hexFix 8 c) =
+      .obj [(s "Chip Desc", .str (chipDesc cd (hexFix 8 a) (sigFields a b c).nodePos (sigFields a b c).chipPos)),
+            (s "Signature", .str (sigDesc cd (hexFix 8 a) (hexFix 4 (sigFields a b c).sigId) (sigFields a b c).inst (sigFields a b c).bit)),
+            (s "Attn Type", .str (attnDesc cd (hexFix 8 a) (sigFields a b c).attn))] := by
+  rw [getSignature_upper cd a b c hb]; rfl
+
+/-- ★ the same for lower-case words (as the signature-list parser produces them with `bytes.hex()`) -/
+theorem signature_fields_lower (cd : List ChipData) (a b c : Nat) (ha : a < 2^32) (hb : b < 2^32) (hc : c < 2^32) :
+    getSignature cd (hexFixL 8 a) (hexFixL 8 b) (hexFixL 8 c) =
+      .obj [(s "Chip Desc", .str (chipDesc cd (hexFixL 8 a) (sigFields a b c).nodePos (sigFields a b c).chipPos)),
+            (s "Signature", .str (sigDesc cd (hexFixL 8 a) (hexFixL 4 (sigFields a b c).sigId) (sigFields a b c).inst (sigFields a b c).bit)),
+            (s "Attn Type", .str (attnDesc cd (hexFixL 8 a) (sigFields a b c).attn))] := by
+  rw [getSignature_lower cd a b c hb]; rfl
+
+/-- ★ with no chip data the three strings contain exactly the raw numbers, for all 2^96 signatures, either case -/
+theorem no_data_upper (a b c : Nat) (ha : a < 2^32) (hb : b < 2^32) (hc : c < 2^32) :
+    getSignature [] (hexFix 8 a) (hexFix 8 b) (hexFix 8 c) = specSignatureNoData a b c := by
+  exact getSignature_nil_upper a b c hb
+theorem no_data_lower (a b c : Nat) (ha : a < 2^32) (hb : b < 2^32) (hc : c < 2^32) :
+    getSignature [] (hexFixL 8 a) (hexFixL 8 b) (hexFixL 8 c) = specSignatureNoData a b c := by
+  exact getSignature_nil_lower a b c hb
+
+/-- ★ look-ups are case-insensitive in the model/EC word and the signature id -/
+theorem lookups_case_insensitive (cd : List ChipData) (ec sid : Text) (node chip inst bit attn : Nat) :
+    chipDesc cd (upperT ec) node chip = chipDesc cd (lowerT ec) node chip ∧
+    sigDesc cd (upperT ec) (upperT sid) inst bit = sigDesc cd (lowerT ec) (lowerT sid) inst bit ∧
+    attnDesc cd (upperT ec) attn = attnDesc cd (lowerT ec) attn := by
+  exact ⟨chipDesc_case cd ec node chip, sigDesc_case cd ec sid inst bit, attnDesc_case cd ec attn⟩
+
+/-- ★ fall-backs to the raw numbers (never an error): chip unknown -/
+theorem fallback_unknown_chip (cd : List ChipData) (ec sid : Text) (node chip inst bit attn : Nat)
+    (h : chipFor cd ec = none) :
+    chipDesc cd ec node chip = s "node " ++ natDec node ++ s " unknown " ++ natDec chip ++ s " (" ++ upperT (lowerT ec) ++ s ")" ∧
+    sigDesc cd ec sid inst bit = s "id:" ++ upperT (lowerT sid) ++ s "(" ++ natDec inst ++ s ")[" ++ natDec bit ++ s "] " ∧
+    attnDesc cd ec attn = natDec attn := by
+  exact ⟨chipDesc_none cd ec node chip h, sigDesc_noentry cd ec sid inst bit (by rw [h]; rfl), attnDesc_none cd ec attn h⟩
+
+/-- partial chip data: a missing `signatures` table or signature id falls back to the id -/
+theorem fallback_missing_signature (cd : List ChipData) (ec sid : Text) (inst bit : Nat) (c : ChipData)
+    (hc : chipFor cd ec = some c) (hs : c.signatures = none ∨ ∃ m, c.signatures = some m ∧ lookup3 m (lowerT sid) = none) :
+    sigDesc cd ec sid inst bit = s "id:" ++ upperT (lowerT sid) ++ s "(" ++ natDec inst ++ s ")[" ++ natDec bit ++ s "] " := by
+  apply sigDesc_noentry
+  rw [hc]
+  rcases hs with hs | ⟨m, hm, hl⟩
+  · simp only [Option.bind_some, hs, Option.bind_none]
+  · simp only [Option.bind_some, hm, hl]
+
+/-- ★ the SRC parser decodes hex words 6, 7, 8 and reads the reason from characters 6..7 of the reference code -/
+theorem src_words (cd : List ChipData) (rc w6 w7 w8 : Text) :
+    oe500Src cd rc w6 w7 w8 =
+      .obj [(s "Primary Attention", .str (if (rc.drop 6).take 2 = s "10" then s "system checkstop" else s "secondary analysis")),
+            (s "Signature Description", getSignature cd w6 w7 w8)] := by
+  rfl
+
+/-- ★ a signature list of any length is listed completely and in order -/
+theorem siglist_roundtrip (cd : List ChipData) (sigs : List (Nat × Nat × Nat)) (rest : Bytes)
+    (hs : ∀ x ∈ sigs, x.1 < 2^32 ∧ x.2.1 < 2^32 ∧ x.2.2 < 2^32) (hn : sigs.length < 2^32) :
+    oe500Ud cd 1 (toBE 4 sigs.length ++ sigs.flatMap (fun x => toBE 4 x.1 ++ toBE 4 x.2.1 ++ toBE 4 x.2.2) ++ rest) =
+      .json (.obj [(s "Signature List",
+        .arr (sigs.map fun x => getSignature cd (hexFixL 8 x.1) (hexFixL 8 x.2.1) (hexFixL 8 x.2.2)))]) := by
+  apply oe500Ud_1 cd _ _ rest
+  rw [List.append_assoc, getInt_toBE_bind 4 _ _ _ (by omega) hn]
+  exact readSigs_ok cd sigs rest hs
+
+structure AReg where
+  id : Nat          -- 24 bit
+  inst : Nat
+  data : Bytes      -- 1..255 bytes
+deriving Repr
+structure AChip where
+  ec : Nat
+  chipPos : Nat
+  nodePos : Nat
+  regs : List AReg
+deriving Repr
+
+def AReg.WF (r : AReg) : Prop := r.id < 2^24 ∧ r.inst < 256 ∧ 1 ≤ r.data.length ∧ r.data.length < 256 ∧ ∀ x ∈ r.data, x < 256
+def AChip.WF (c : AChip) : Prop := c.ec < 2^32 ∧ c.chipPos < 65536 ∧ c.nodePos < 256 ∧ c.regs.length < 2^32 ∧ ∀ r ∈ c.regs, r.WF
+def AReg.enc (r : AReg) : Bytes := toBE 3 r.id ++ [r.inst, r.data.length] ++ r.data
+def AChip.enc (c : AChip) : Bytes :=
+  toBE 4 c.ec ++ toBE 2 c.chipPos ++ [c.nodePos] ++ toBE 4 c.regs.length ++ c.regs.flatMap (·.enc)
+
+def regLine (cd : List ChipData) (ec : Text) (r : AReg) : Text :=
+  let nd := regData cd ec (hexFixL 6 r.id) r.inst
+  s "  " ++ ljust 25 32 (nd.1.take 25) ++ s " (" ++ nd.2 ++ s ") " ++
+    upperT (joinWith [32] (chunk4 ((bytesHexL r.data).length + 1) (bytesHexL r.data)))
+
+def chipLines (cd : List ChipData) (c : AChip) : List Text :=
+  ljust 60 42 (chipDesc cd (hexFixL 8 c.ec) c.nodePos c.chipPos ++ [32]) :: c.regs.map (regLine cd (hexFixL 8 c.ec))
+
+/-- ★ a register dump lists every chip and every register in order with its id, instance and data -/
+theorem regdump_roundtrip (cd : List ChipData) (chips : List AChip) (rest : Bytes)
+    (hw : ∀ c ∈ chips, c.WF) (hn : chips.length < 2^32) :
+    oe500Ud cd 2 (toBE 4 chips.length ++ chips.flatMap (·.enc) ++ rest) =
+      .json (.obj [(s "Register Dump", .arr ((chips.flatMap (chipLines cd)).map .str))]) := by
+  apply oe500Ud_2 cd _ _ rest
+  rw [List.append_assoc, getInt_toBE_bind 4 _ _ _ (by omega) hn]
+  exact readChips_ok AChip.ec AChip.chipPos AChip.nodePos AChip.regs AReg.id AReg.inst AReg.data cd chips rest
+    (fun c hc => ⟨(hw c hc).2.1, (hw c hc).2.2.1, (hw c hc).2.2.2.1,
+      fun r hr => ⟨((hw c hc).2.2.2.2 r hr).2.1, ((hw c hc).2.2.2.2 r hr).2.2.1, ((hw c hc).2.2.2.2 r hr).2.2.2.1⟩⟩)
+
+/-- ★ the data column is exactly the register's data bytes: removing the grouping spaces gives their hex digits -/
+theorem regline_data_exact (t : Text) (h : ∀ x ∈ t, x ≠ 32) :
+    (joinWith [32] (chunk4 (t.length + 1) t)).filter (· != 32) = t := by
+  exact chunk4_join_filter (t.length + 1) t (Nat.lt_succ_self _) h
+
+/-- the scratch-register sections reproduce their encoded values -/
+theorem scratch_regs (cd : List ChipData) (a b c d rest : Bytes)
+    (ha : a.length = 4) (hb : b.length = 4) (hc : c.length = 8) (hd : d.length = 8) :
+    oe500Ud cd 4 (a ++ b ++ c ++ d ++ rest) =
+      .json (.obj [(s "Hostboot Scratch Registers",
+        .obj [(s "0x" ++ bytesHexL a, .str (s "0x" ++ bytesHexL b)), (s "0x" ++ bytesHexL c, .str (s "0x" ++ bytesHexL d))])]) := by
+  have hne : s "0x" ++ bytesHexL a ≠ s "0x" ++ bytesHexL c := by
+    intro he
+    have := congrArg List.length he
+    simp only [List.length_append, bytesHexL_length, ha, hc] at this
+    omega
+  simp only [List.append_assoc]
+  rw [oe500Ud_4 cd a b c d rest ha hb hc hd]
+  simp only [objSet, if_neg hne]
+
+theorem scratch_sig (cd : List ChipData) (a b rest : Bytes) (ha : a.length = 4) (hb : b.length = 4) :
+    oe500Ud cd 5 (a ++ b ++ rest) =
+      .json (.obj [(s "Scratch Register Error Signature",
+        .obj [(s "Chip ID", .str (s "0x" ++ bytesHexL a)), (s "Signature ID", .str (s "0x" ++ bytesHexL b))])]) := by
+  simp only [List.append_assoc]
+  exact oe500Ud_5 cd a b rest ha hb
+
+/-- the callout FFDC section reproduces the JSON value stored in it (NUL terminated text) -/
+theorem callout_ffdc (cd : List ChipData) (d : J) (n pad : Nat) (hw : d.wf = true) :
+    oe500Ud cd 3 (aText n d 0 ++ List.replicate pad 0) = .json (.obj [(s "Callout List FFDC", d)]) := by
+  exact oe500Ud_3 cd _ _ d (callout_decode n d pad) (loads_aText n d hw)
+
 end Pel.C20
